@@ -1,6 +1,6 @@
 """Path summaries: every control path of a (possibly partially evaluated) method body as
     facts   {canonical test text: assumed truth}
-    events  ordered calls ('call', callee text, (arg texts...), lineno) and attribute / element stores ('store', target text, lineno, value text); ('except', '', lineno) marks the entry of a handler
+    events  ordered calls ('call', callee text, (arg texts...), lineno, (parseable arg texts...)) and attribute / element stores ('store', target text, lineno, value text); ('except', '', lineno) marks the entry of a handler
     ret     canonical text of the returned expression (None for a fall-through, '<none>' for a bare return)
 Locals are resolved to the expression they were last assigned on that path (so a rule never sees what a temporary is called);
 a local that is re-assigned from itself composes (`v = v and c`).  Built on the structured flow engine (all paths, no execution).
@@ -90,8 +90,9 @@ class PathDomain(Domain):
 
     def _calls(self, e, env, events):
         for c in sorted((x for x in ast.walk(e) if isinstance(x, ast.Call)), key=lambda x: (x.end_lineno or x.lineno, x.end_col_offset or 0)):
-            events = events + (('call', norm_text(self._canon(c.func, env)), tuple(norm_text(self._canon(a, env)) for a in c.args)
-                                + tuple('%s=%s' % (k.arg, norm_text(self._canon(k.value, env))) for k in c.keywords), c.lineno),)
+            srcs = tuple(self._canon(a, env) for a in c.args)          # parseable argument texts (element 4; element 2 has no spaces)
+            events = events + (('call', norm_text(self._canon(c.func, env)), tuple(norm_text(a_) for a_ in srcs)
+                                + tuple('%s=%s' % (k.arg, norm_text(self._canon(k.value, env))) for k in c.keywords), c.lineno, srcs),)
         return events
 
     def transfer(self, stmt, state):
